@@ -102,15 +102,22 @@ template <typename Info> static std::string info_fields(Info const& i) { return 
 #endif
 
 // ---- one read through the chosen device; F is called with the device lvalue
-template <typename F> static void with_device(Op const& o, F f) {
+template <typename Tag> struct has_file_device : std::true_type {};
+#ifdef C11_EXT
+template <> struct has_file_device<gil::tiff_tag> : std::false_type {};     // libtiff: file name and std::istream only
+#endif
+template <typename Tag, typename F> static void with_device(Op const& o, F f) {
     if (o.dev == "name") { std::string p = o.path; f(p); }
-    else if (o.dev == "file") { FILE* fp = std::fopen(o.path.c_str(), "rb"); if (!fp) throw std::runtime_error("fopen"); f(fp); }   // GIL owns and closes fp
+    else if (o.dev == "file") {
+        if constexpr (has_file_device<Tag>::value) { FILE* fp = std::fopen(o.path.c_str(), "rb"); if (!fp) throw std::runtime_error("fopen"); f(fp); }   // GIL owns and closes fp
+        else throw std::runtime_error("no FILE* device for this format");
+    }
     else { std::ifstream in(o.path.c_str(), std::ios::binary); f(in); }
 }
 
 template <typename Tag> static std::string do_info(Op const& o) {
     std::string r;
-    with_device(o, [&](auto& dev) { auto b = gil::read_image_info(dev, settings_of<Tag>(o)); r = "ok " + info_fields(b._info); });
+    with_device<Tag>(o, [&](auto& dev) { auto b = gil::read_image_info(dev, settings_of<Tag>(o)); r = "ok " + info_fields(b._info); });
     return r;
 }
 
@@ -123,7 +130,7 @@ template <typename Tag, typename Pixel> static std::string do_pixels(Op const& o
         if (o.entry == "view") {       // the caller's view: pre-filled, so that pixels the reader never writes show (hashA != hashB)
             img.recreate(o.vw, o.vh); Pixel fillp; gil::static_fill(fillp, g_fill); gil::fill_pixels(gil::view(img), fillp);
         }
-        with_device(o, [&](auto& dev) {
+        with_device<Tag>(o, [&](auto& dev) {
             if (o.entry == "image") gil::read_image(dev, img, settings_of<Tag>(o));
             else if (o.entry == "view") gil::read_view(dev, gil::view(img), settings_of<Tag>(o));
             else gil::read_and_convert_image(dev, img, settings_of<Tag>(o));
@@ -155,6 +162,15 @@ template <typename Tag> static std::string do_scan(Op const& o) {
     gil::scanline_reader<dev_t, Tag> reader(dev, gil::image_read_settings<Tag>()); return scan_rows(reader);
 }
 
+#ifdef C11_EXT
+// png / jpeg / tiff (supporting evidence): read_image only, one pass
+template <typename Tag, typename Pixel> static std::string do_image_ext(Op const& o) {
+    gil::image<Pixel, false, fill_alloc<unsigned char>> img;
+    with_device<Tag>(o, [&](auto& dev) { gil::read_image(dev, img, settings_of<Tag>(o)); });
+    return "ok " + std::to_string((long)img.width()) + " " + std::to_string((long)img.height()) + " " + hex64(hash_view(gil::const_view(img)));
+}
+#endif
+
 template <typename Tag, typename... Px> struct dispatch;
 template <typename Tag> struct dispatch<Tag> { static bool go(Op const&, std::string&, const char* const*) { return false; } };
 template <typename Tag, typename P, typename... Px> struct dispatch<Tag, P, Px...> {
@@ -164,8 +180,31 @@ template <typename Tag, typename P, typename... Px> struct dispatch<Tag, P, Px..
     }
 };
 
+#ifdef C11_EXT
+// gen <fmt> <dst> <w> <h> <seed>: a file written by GIL's own writer, returned as hex (seed of the supporting-evidence stream)
+template <typename Tag, typename Pixel> static std::string gen_file(std::string const& path, long w, long h, uint64_t seed) {
+    gil::image<Pixel> img(w, h); hv::rng r(seed);
+    gil::for_each_pixel(gil::view(img), [&](Pixel& p) { gil::static_for_each(p, [&](auto& c) { c = (unsigned char)r.below(256); }); });
+    gil::write_view(path, gil::const_view(img), Tag());
+    std::ifstream f(path.c_str(), std::ios::binary); std::stringstream ss; ss << f.rdbuf(); std::string b = ss.str();
+    static const char* hx = "0123456789abcdef"; std::string out = "hex ";
+    for (unsigned char c : b) { out += hx[c >> 4]; out += hx[c & 15]; }
+    return out;
+}
+static std::string gen_op(std::vector<std::string> const& w, std::string const& path) {
+    long W = hv::to_ll(w[3]), H = hv::to_ll(w[4]); uint64_t seed = hv::to_ull(w[5]);
+#define G(F, T, D, P) if (w[1] == F && w[2] == D) return gen_file<T, P>(path, W, H, seed);
+    G("png", gil::png_tag, "rgb8", gil::rgb8_pixel_t) G("png", gil::png_tag, "rgba8", gil::rgba8_pixel_t) G("png", gil::png_tag, "gray8", gil::gray8_pixel_t)
+    G("jpg", gil::jpeg_tag, "rgb8", gil::rgb8_pixel_t) G("jpg", gil::jpeg_tag, "gray8", gil::gray8_pixel_t)
+    G("tif", gil::tiff_tag, "rgb8", gil::rgb8_pixel_t) G("tif", gil::tiff_tag, "rgba8", gil::rgba8_pixel_t) G("tif", gil::tiff_tag, "gray8", gil::gray8_pixel_t)
+#undef G
+    return "bad-op";
+}
+#endif
+
 static std::string run_op(Op const& o) {
     std::string r;
+#ifndef C11_EXT
     if (o.fmt == "bmp") {
         if (o.entry == "info") return do_info<gil::bmp_tag>(o);
         if (o.entry == "scan") return do_scan<gil::bmp_tag>(o);
@@ -183,7 +222,7 @@ static std::string run_op(Op const& o) {
             for (int pass = 0; pass < 2; ++pass) {
                 image_t img;
                 if (o.entry == "view") { img.recreate(o.vw, o.vh); gil::fill_pixels(gil::view(img), image_t::value_type(pass ? 1 : 0)); }
-                with_device(o, [&](auto& dev) {
+                with_device<gil::pnm_tag>(o, [&](auto& dev) {
                     if (o.entry == "view") gil::read_view(dev, gil::view(img), settings_of<gil::pnm_tag>(o));
                     else gil::read_image(dev, img, settings_of<gil::pnm_tag>(o));
                 });
@@ -200,19 +239,22 @@ static std::string run_op(Op const& o) {
         static const char* n[] = {"rgb8", "rgba8"};
         if (dispatch<gil::targa_tag, gil::rgb8_pixel_t, gil::rgba8_pixel_t>::go(o, r, n)) return r;
     }
-#ifdef C11_EXT
+#else
+    if (false) {}
     else if (o.fmt == "png") {
         if (o.entry == "info") return do_info<gil::png_tag>(o);
-        static const char* n[] = {"rgb8", "rgba8", "gray8"};
-        if (dispatch<gil::png_tag, gil::rgb8_pixel_t, gil::rgba8_pixel_t, gil::gray8_pixel_t>::go(o, r, n)) return r;
+        if (o.entry == "image" && o.dst == "rgb8") return do_image_ext<gil::png_tag, gil::rgb8_pixel_t>(o);
+        if (o.entry == "image" && o.dst == "rgba8") return do_image_ext<gil::png_tag, gil::rgba8_pixel_t>(o);
+        if (o.entry == "image" && o.dst == "gray8") return do_image_ext<gil::png_tag, gil::gray8_pixel_t>(o);
     } else if (o.fmt == "jpg") {
         if (o.entry == "info") return do_info<gil::jpeg_tag>(o);
-        static const char* n[] = {"rgb8", "gray8"};
-        if (dispatch<gil::jpeg_tag, gil::rgb8_pixel_t, gil::gray8_pixel_t>::go(o, r, n)) return r;
+        if (o.entry == "image" && o.dst == "rgb8") return do_image_ext<gil::jpeg_tag, gil::rgb8_pixel_t>(o);
+        if (o.entry == "image" && o.dst == "gray8") return do_image_ext<gil::jpeg_tag, gil::gray8_pixel_t>(o);
     } else if (o.fmt == "tif") {
         if (o.entry == "info") return do_info<gil::tiff_tag>(o);
-        static const char* n[] = {"rgb8", "rgba8", "gray8"};
-        if (dispatch<gil::tiff_tag, gil::rgb8_pixel_t, gil::rgba8_pixel_t, gil::gray8_pixel_t>::go(o, r, n)) return r;
+        if (o.entry == "image" && o.dst == "rgb8") return do_image_ext<gil::tiff_tag, gil::rgb8_pixel_t>(o);
+        if (o.entry == "image" && o.dst == "rgba8") return do_image_ext<gil::tiff_tag, gil::rgba8_pixel_t>(o);
+        if (o.entry == "image" && o.dst == "gray8") return do_image_ext<gil::tiff_tag, gil::gray8_pixel_t>(o);
     }
 #endif
     return "bad-op";
@@ -383,6 +425,9 @@ int main(int argc, char** argv) {
     bool no_ext = std::getenv("C11_NO_EXT") != nullptr;
     return hv::run([&](std::string const& line) -> std::string {
         auto w = hv::words(line);
+#ifdef C11_EXT
+        if (w.size() == 6 && w[0] == "gen") { try { return gen_op(w, g_scratch + "/gen." + std::to_string((long)getpid())); } catch (std::exception const& e) { return std::string("gen-failed:") + e.what(); } }
+#endif
         if (w.size() != 11) return "bad-op";
         Op o{w[0], w[1], w[2], w[3], hv::to_ll(w[4]), hv::to_ll(w[5]), hv::to_ll(w[6]), hv::to_ll(w[7]), hv::to_ll(w[8]), hv::to_ll(w[9]), ""};
         std::string bytes; if (!unhex(w[10], bytes)) return "bad-op";
